@@ -310,12 +310,17 @@ def checkStep (e : Env) (pre : Sys) (op : Op) (res : Res) (post : Sys) (origin :
   (if pre.global = 0 && post.global ≠ 0 && res = .ok && isStakingOp op then [("C20", "clause=residueAfterOkStaking cls=none")] else []) ++
   -- C12: every unfinished order has a pending re-examination after each block; the class names the
   -- known stop condition `height + timeout >= createdAt + duration` of HandleTimeoutOrder (finding F15)
-  (if isBlockEnd op && res = .ok then
+  (let handsOver := match op with
+     | .end_ => true
+     | .ready .. => true   -- the gateway hands a pending order to providers: its first check is scheduled now
+     | .store _ => true
+     | _ => false
+   if handsOver && res = .ok then
     let stuck := post.st.orders.filter (fun o => unfinished post.st o &&
       !(post.st.timeoutQ.any (fun e => (e.1 : Int) > post.st.h && e.2.contains o.id)))
     let wasStuck := fun (o : Order) => unfinished pre.st o && !(pre.st.timeoutQ.any (fun e => (e.1 : Int) ≥ pre.st.h && e.2.contains o.id))
     (stuck.filter (fun o => !wasStuck o)).map (fun o =>
-      ("C12", s!"clause=timeoutPending cls={if addU64 (toU64 post.st.h) o.timeout ≥ addU64 o.createdAt o.duration then "near-end-of-life" else "none"} rec=order{o.id}"))
+      ("C12", s!"clause=timeoutPending cls={if isBlockEnd op && addU64 (toU64 post.st.h) o.timeout ≥ addU64 o.createdAt o.duration then "near-end-of-life" else "none"} rec=order{o.id}"))
    else []) ++
   -- C12: an order examined by the timeout handler in this block leaves the schedule only when it
   -- is gone or every replica it is still paid for is stored (checked while no stored shard can have expired yet)
